@@ -308,7 +308,7 @@ func (c *channel) connect() error {
 			c.streamBroken.set()
 			return err
 		}
-		err = c.newNodeStream(c.node.conn)
+		err = c.newNodeStream(c.node.getConn())
 		if err != nil {
 			c.streamBroken.set()
 			return err
